@@ -34,6 +34,7 @@ class Sched:
         self.granted = [False] * n
         self.blocked = [False] * n        # last turn was a failed lock acquisition
         self.tids: dict[int, int] = {}    # thread ident -> session id
+        self.locks: list = []             # lock proxies in creation order (their index is the lock number)
         self.pending = ["x"] * n          # what the parked session will do when granted (tag, see Fs/Drv/Sched.lean)
         self.trace: list[str] = []        # "<session>:<tag>" per grant
 
@@ -99,6 +100,8 @@ class _LockProxy:
 
     def __init__(self, inner, sched, used):
         self._inner, self._sched, self._used = inner, sched, used
+        self._id = len(sched.locks)
+        sched.locks.append(self)
 
     def acquire(self, blocking=True, timeout=-1):
         s = self._sched
@@ -107,7 +110,7 @@ class _LockProxy:
             return self._inner.acquire(blocking, timeout)
         self._used.append(i)
         while True:
-            s.park(i, "L+")
+            s.park(i, f"L+{self._id}")
             if self._inner.acquire(False):
                 return True
             s.blocked[i] = True
@@ -116,7 +119,7 @@ class _LockProxy:
         s = self._sched
         i = s.me()
         if i is not None:
-            s.park(i, "L-")
+            s.park(i, f"L-{self._id}")
         self._inner.release()
 
     def __enter__(self):
@@ -128,6 +131,23 @@ class _LockProxy:
 
     def locked(self):
         return self._inner.locked()
+
+
+class _ThreadingShim:
+    """stands in for the `threading` module inside fakesnow's modules: every lock created there – at any time, e.g. one
+    per database on first use – is a scheduler-aware lock with its own number"""
+
+    def __init__(self, sched, used):
+        self._sched, self._used = sched, used
+
+    def Lock(self):  # noqa: N802
+        return _LockProxy(threading.Lock(), self._sched, self._used)
+
+    def RLock(self):  # noqa: N802
+        return _LockProxy(threading.RLock(), self._sched, self._used)
+
+    def __getattr__(self, name):
+        return getattr(threading, name)
 
 
 def tag_of(sql: str) -> str | None:
@@ -196,8 +216,10 @@ def _exec_stmt(conn_box: list, st: str) -> str | None:
     import snowflake.connector
     try:
         if st[0] == "N":
-            d, s = st[1:].split(".")
-            conn_box[0] = snowflake.connector.connect(database=f"db{d}", schema=f"s{s}")
+            body, sp = (st[1:-1], st[-1]) if st[-1] in "ulm" else (st[1:], "l")
+            d, s = body.split(".")
+            spell = {"l": str.lower, "u": str.upper, "m": str.capitalize}[sp]
+            conn_box[0] = snowflake.connector.connect(database=spell(f"db{d}"), schema=spell(f"s{s}"))
             return None
         if conn_box[0] is None:
             return "E"
@@ -230,7 +252,7 @@ def _run_real(job) -> dict:
             self.duck_conn = _DuckProxy(self.duck_conn, sched)
             lock_types = (type(threading.Lock()), type(threading.RLock()))
             for name, v in list(vars(self).items()):
-                if isinstance(v, lock_types):
+                if isinstance(v, lock_types):     # locks created through `from threading import Lock`
                     setattr(self, name, _LockProxy(v, sched, has_lock))
 
     orig = fakesnow.FakeSnow
@@ -238,14 +260,28 @@ def _run_real(job) -> dict:
     results: list[list[str]] = [[] for _ in range(n)]
     has_lock: list[str] = []
     errors: list[str] = []
+    import sys as _sys
+    shimmed = []
+    for mname, mod in list(_sys.modules.items()):
+        if mname.startswith("fakesnow") and getattr(mod, "threading", None) is threading:
+            mod.threading = _ThreadingShim(sched, has_lock)
+            shimmed.append(mod)
+    cd, cs = job.get("flags", [True, True])
     try:
-        with fakesnow.patch():
+        with fakesnow.patch(create_database_on_connect=cd, create_schema_on_connect=cs):
             # setup by the main thread (not scheduled)
             init = [x for x in job["init"].split(",") if x and x != "-"]
             setup = None
             if init:
-                setup = snowflake.connector.connect(database="db1", schema="s1")
-                sc = setup.cursor()
+                if cd and cs:
+                    setup = snowflake.connector.connect(database="db1", schema="s1")
+                    sc = setup.cursor()
+                else:
+                    setup = snowflake.connector.connect()
+                    sc = setup.cursor()
+                    sc.execute("create database db1")
+                    if any(x.startswith("S") for x in init):
+                        sc.execute("create schema db1.s1")
                 for x in init:
                     if x[0] == "T":
                         t, *rows = x[1:].split(":")
@@ -315,6 +351,8 @@ def _run_real(job) -> dict:
             return {"outs": "|".join(",".join(r) for r in results), "final": ",".join(final), "trace": list(sched.trace), "locked": bool(has_lock)}
     finally:
         fakesnow.FakeSnow = orig
+        for mod in shimmed:
+            mod.threading = threading
 
 
 def _forked(fn, arg, timeout: float):
@@ -403,7 +441,9 @@ def _stress_round(args) -> dict:
                 except threading.BrokenBarrierError:
                     slow.append(tid)
                     return
-                c = snowflake.connector.connect(database="newdb", schema="news")   # all threads auto-create the same db + schema
+                # all threads auto-create the same database + schema, each spelling the names in its own letter case
+                spell = (str.lower, str.upper, str.capitalize, str.swapcase)[tid % 4]
+                c = snowflake.connector.connect(database=spell("newDb"), schema=spell("newS"))
                 cur = c.cursor()
                 for n in range(ninserts):
                     cur.execute(f"insert into shared.s0.log (tid, n) values ({tid}, {n})")
@@ -425,6 +465,82 @@ def _stress_round(args) -> dict:
         cur.execute("select count(*), count(distinct tid * 1000 + n) from shared.s0.log")
         total, distinct = cur.fetchall()[0]
     return {"errs": errs, "hung": hung, "total": total, "distinct": distinct, "expect": nthreads * ninserts, "seed": seed}
+
+
+def _stress_statements_round(args) -> dict:
+    """several sessions (connections made beforehand, one per thread) each run many multi-row INSERTs into their OWN
+    table, free-running with a very short thread switch interval, so that threads are switched inside fakesnow's pure
+    Python statement processing (parse, rewrite, render) – between, not at, engine calls.  Only exceptions, wrong
+    per-statement counts and wrong final contents are failures; nothing is timed."""
+    import sys as _sys
+    import fakesnow
+    import snowflake.connector
+    nthreads, nstmts, nrows, seed = args
+    errs: list[str] = []
+    wrong: list[str] = []
+    old = _sys.getswitchinterval()
+    with fakesnow.patch():
+        main = snowflake.connector.connect(database="shared", schema="s0")
+        mc = main.cursor()
+        conns = []
+        for t in range(nthreads):
+            mc.execute(f"create table shared.s0.p{t} (tid int, n int, txt varchar)")
+            conns.append(snowflake.connector.connect(database="shared", schema="s0"))
+        barrier = threading.Barrier(nthreads)
+        slow: list[int] = []
+
+        def w(tid: int):
+            try:
+                try:
+                    barrier.wait(timeout=100)
+                except threading.BrokenBarrierError:
+                    slow.append(tid)
+                    return
+                cur = conns[tid].cursor()
+                for j in range(nstmts):
+                    vals = ", ".join(f"({tid}, {j * nrows + r}, 'session {tid} row {r} (x)')" for r in range(nrows))
+                    cur.execute(f"insert into shared.s0.p{tid} (tid, n, txt) values {vals}")
+                    got = cur.fetchall()
+                    if got != [(nrows,)]:
+                        wrong.append(f"session {tid} statement {j}: INSERT of {nrows} rows answered {got!r}")
+            except Exception as e:  # noqa: BLE001
+                errs.append(f"session {tid}: {type(e).__name__}: {str(e)[:120]}")
+
+        ts = [threading.Thread(target=w, args=(i,), daemon=True) for i in range(nthreads)]
+        _sys.setswitchinterval(1e-5)
+        try:
+            [t.start() for t in ts]
+            deadline = time.time() + 150
+            for t in ts:
+                t.join(timeout=max(0.1, deadline - time.time()))
+        finally:
+            _sys.setswitchinterval(old)
+        hung = sum(t.is_alive() for t in ts)
+        if hung or slow:
+            raise common.Infra(f"statement stress round (seed {seed}): {hung} threads still running, {len(slow)} never passed the barrier")
+        if not errs:
+            for t in range(nthreads):
+                mc.execute(f"select count(*), count(distinct n), min(tid), max(tid) from shared.s0.p{t}")
+                cnt, dist, lo, hi = mc.fetchall()[0]
+                if (cnt, dist, lo, hi) != (nstmts * nrows, nstmts * nrows, t, t):
+                    wrong.append(f"table p{t}: {cnt} rows, {dist} distinct, tid {lo}..{hi}; expected {nstmts * nrows} rows of session {t} only")
+    return {"errs": errs, "wrong": wrong, "seed": seed}
+
+
+def _stress_statements_worker(shard):
+    _warm()
+    out = []
+    for a in shard:
+        r = _forked(_stress_statements_round, a, 240.0)
+        if "timeout" in r:
+            raise common.Infra(f"statement stress round (seed {a[3]}) did not finish within 240 s")
+        if "crashed" in r:
+            out.append({"errs": [r["crashed"]], "wrong": [], "seed": a[3]})
+            continue
+        if "ok" not in r:
+            raise common.Infra(f"statement stress round: {r}")
+        out.append(r["ok"])
+    return out
 
 
 def _stress_worker(shard):
@@ -449,17 +565,23 @@ def _stress_worker(shard):
 # ------------------------------------------------------------------------------------------------
 
 BASE = "D1,S1.1"
+TT, FT, TF, FF = [True, True], [False, True], [True, False], [False, False]   # create_database_on_connect, create_schema_on_connect
 SCENARIOS = [
-    # name, init, programs, tables observed
-    ("connect-same-new-db", "-", [["N1.1"], ["N1.1"]], []),
-    ("connect-same-db-other-schema", "-", [["N1.1"], ["N1.2"], ["N1.1"]], []),
-    ("connect-then-insert", BASE + ",T0", [["N1.1", "I0.1.1", "R0"], ["N1.1", "I0.2.2"]], [0]),
-    ("single-call-shared-table", BASE + ",T0:9.9", [["I0.1.1", "R0"], ["I0.2.2", "R0"]], [0]),
-    ("single-call-three", BASE + ",T0", [["I0.1.1", "R0"], ["R0", "I0.2.2"], ["I0.3.3"]], [0]),
-    ("disjoint-multi-call", BASE, [["T1.7", "I1.1.1", "G1.1.10.2.20"], ["T2.8", "I2.5.5", "W2"]], [1, 2]),
-    ("comment-vs-show", BASE, [["T1.7"], ["W1"]], [1]),
-    ("merge-vs-select", BASE + ",T0:1.1", [["G0.1.10.2.20"], ["R0"]], [0]),
-    ("create-same-table", BASE, [["T1.-", "I1.1.1"], ["T1.-", "I1.2.2"]], [1]),
+    # name, init, programs (connect suffix u/m = the name spelled UPPER / Capitalized), tables observed, flags
+    ("connect-same-new-db", "-", [["N1.1"], ["N1.1"]], [], TT),
+    ("connect-same-new-db-spellings", "-", [["N1.1"], ["N1.1u"]], [], TT),
+    ("connect-three-spellings", "-", [["N1.1"], ["N1.1u"], ["N1.1m"]], [], TT),
+    ("connect-same-db-other-schema", "-", [["N1.1"], ["N1.2u"], ["N1.1"]], [], TT),
+    ("connect-new-schema-db-exists-nocreate-db", "D1", [["N1.1"], ["N1.1u"]], [], FT),
+    ("connect-new-db-nocreate-schema", "-", [["N1.1"], ["N1.1m"]], [], TF),
+    ("connect-nothing-created", "D1,S1.1", [["N1.1"], ["N1.1u"]], [], FF),
+    ("connect-then-insert", BASE + ",T0", [["N1.1", "I0.1.1", "R0"], ["N1.1u", "I0.2.2"]], [0], TT),
+    ("single-call-shared-table", BASE + ",T0:9.9", [["I0.1.1", "R0"], ["I0.2.2", "R0"]], [0], TT),
+    ("single-call-three", BASE + ",T0", [["I0.1.1", "R0"], ["R0", "I0.2.2"], ["I0.3.3"]], [0], TT),
+    ("disjoint-multi-call", BASE, [["T1.7", "I1.1.1", "G1.1.10.2.20"], ["T2.8", "I2.5.5", "W2"]], [1, 2], TT),
+    ("comment-vs-show", BASE, [["T1.7"], ["W1"]], [1], TT),
+    ("merge-vs-select", BASE + ",T0:1.1", [["G0.1.10.2.20"], ["R0"]], [0], TT),
+    ("create-same-table", BASE, [["T1.-", "I1.1.1"], ["T1.-", "I1.2.2"]], [1], TT),
 ]
 
 
@@ -485,8 +607,9 @@ def _jobs(chk) -> list[dict]:
     jobs = []
     for f in sorted((common.CORPUS / "C19").glob("*.json")):
         c = json.loads(f.read_text())
-        jobs.append({"name": c["name"], "init": c["init"], "progs": c["progs"], "tables": c["tables"], "sched": c["sched"]})
-    for name, init, progs, tables in SCENARIOS:
+        jobs.append({"name": c["name"], "init": c["init"], "progs": c["progs"], "tables": c["tables"], "sched": c["sched"],
+                     "flags": c.get("flags", TT)})
+    for name, init, progs, tables, flags in SCENARIOS:
         n = len(progs)
         if n == 2:
             pats = list(_patterns2(9, 9))
@@ -494,23 +617,56 @@ def _jobs(chk) -> list[dict]:
             for p in pats:
                 if tuple(p) not in seen:
                     seen.add(tuple(p)); uniq.append(p)
-            if quick and len(uniq) > 110:
-                uniq = rnd.sample(uniq, 110)
+            if quick and len(uniq) > 64:
+                uniq = rnd.sample(uniq, 64)
         else:
-            uniq = list(_patterns3(rnd, n, 60 if quick else 400))
+            uniq = list(_patterns3(rnd, n, 40 if quick else 400))
         for p in uniq:
-            jobs.append({"name": name, "init": init, "progs": progs, "tables": tables, "sched": p})
+            jobs.append({"name": name, "init": init, "progs": progs, "tables": tables, "sched": p, "flags": flags})
     return jobs
 
 
+def _lock_episodes(trace: list[str], i: int) -> list[str]:
+    """lock numbers session i held, one per acquire…release episode, in order (from the real trace)"""
+    eps, cur = [], None
+    for t in trace:
+        sid, tag = t.split(":", 1)
+        if int(sid) != i:
+            continue
+        if tag.startswith("L+") and cur is None:
+            cur = tag[2:]
+            eps.append(cur)
+        elif tag.startswith("L-"):
+            cur = None
+    return eps
+
+
 def _line(job, trace, locked=True) -> str:
-    return "\t".join(["sched", "run", "1" if locked else "0", job["init"], "|".join(";".join(p) for p in job["progs"]), ",".join(map(str, trace)) or "-"])
+    """the model request: programs with the connect flags of the scenario and, per connect, the lock the code really took
+    (the model follows the code's locking, it does not presume it); lock tags lose their number"""
+    cd, cs = job.get("flags", [True, True])
+    progs = []
+    for i, p in enumerate(job["progs"]):
+        eps = _lock_episodes(trace, i)
+        out, k = [], 0
+        for st in p:
+            if st[0] == "N":
+                body = st[1:-1] if st[-1] in "ulm" else st[1:]
+                lock = eps[k] if k < len(eps) else "-"
+                k += 1
+                out.append(f"N{body}/{int(cd)}{int(cs)}/{lock}")
+            else:
+                out.append(st)
+        progs.append(";".join(out))
+    mtrace = [(t.split(":")[0] + ":" + ("L+" if t.split(":")[1].startswith("L+") else "L-" if t.split(":")[1].startswith("L-") else t.split(":")[1]))
+              for t in trace]
+    return "\t".join(["sched", "run", "1", job["init"], "|".join(progs), ",".join(mtrace) or "-"])
 
 
 def _check(chk, job, real, rep) -> None:
     if "impl" not in rep:
         raise common.Infra(f"driver: {rep}")
-    case = {"name": job["name"], "init": job["init"], "progs": job["progs"], "tables": job["tables"], "sched": job["sched"], "trace": real["trace"]}
+    case = {"name": job["name"], "init": job["init"], "progs": job["progs"], "tables": job["tables"], "sched": job["sched"], "flags": job.get("flags", TT), "trace": real["trace"]}
     chk.case((job["name"], tuple(real["trace"])), nontrivial=len({t.split(":")[0] for t in real["trace"]}) > 1,
              sample=case if chk.evaluations % 61 == 3 else None)
     chk.count("scenario:" + job["name"])
@@ -562,7 +718,22 @@ def run(chk) -> None:
         chk.violation(f"free-running stress (8 threads: connect to the same new database+schema, 5 inserts each into a shared table): "
                       f"{len(bad)}/{len(res)} rounds failed; first: errors={b['errs'][:3]} hung={b['hung']} rows={b['total']} "
                       f"distinct={b['distinct']} expected={b['expect']} (seed {b['seed']}; not deterministic)",
-                      {"name": "stress", "args": [8, 5, b["seed"]]}, broken="C19 free-running stress (supporting evidence)")
+                      {"name": "stress", "args": [8, 5, b["seed"]], "nondeterministic": True}, broken="C19 free-running stress (connects + inserts)")
+    # free-running statement stress: thread switches inside fakesnow's own (pure Python) statement processing
+    srounds = 4 if chk.tier == "quick" else 24
+    sargs = [(4, 5, 30, chk.seed * 1000 + i) for i in range(srounds)]
+    sres = [r for sh in common.shard_map(_stress_statements_worker, common.chunks(sargs, 8), procs=8) for r in sh]
+    sbad = [r for r in sres if r["errs"] or r["wrong"]]
+    chk.count("statement-stress-rounds", len(sres))
+    chk.extra["statement_stress"] = {"rounds": len(sres), "threads": 4, "failed_rounds": len(sbad)}
+    if sbad:
+        b = sbad[0]
+        chk.violation(f"free-running statement stress (4 sessions, each 5 INSERTs of 30 rows into its OWN table, switch interval 1e-5): "
+                      f"{len(sbad)}/{len(sres)} rounds failed; first (seed {b['seed']}): exceptions={b['errs'][:3]} wrong results={b['wrong'][:3]} "
+                      f"- in every one-at-a-time order each INSERT answers 30 and each table ends with 150 rows of its own session "
+                      f"(non-deterministic stress finding: re-run the replay a few times)",
+                      {"name": "statement-stress", "args": [4, 5, 30, b["seed"]], "nondeterministic": True},
+                      broken="C19 free-running statement stress (a statement fails or is mixed with another session's because of a race)")
     chk.rule = ("real threads under a deterministic turn-based scheduler (yield points = the model's engine calls and the connect lock); "
                 "scenarios: concurrent connects auto-creating the same database/schema, connect + DML, single-call statements on a shared "
                 "table (2 and 3 sessions), multi-call statements on disjoint tables, CREATE TABLE COMMENT vs metadata read, MERGE vs "
@@ -576,12 +747,23 @@ def run(chk) -> None:
 
 
 def replay(chk, case) -> None:
+    if case.get("name") == "statement-stress":
+        bad = 0
+        for k in range(5):   # non-deterministic: try a few times
+            r = _stress_statements_worker([tuple(case["args"][:3]) + (case["args"][3] + k,)])[0]
+            bad += bool(r["errs"] or r["wrong"])
+            if bad:
+                chk.violation(f"statement stress failed again (attempt {k + 1}): {r['errs'][:2]} {r['wrong'][:2]}", case,
+                              broken="C19 free-running statement stress")
+                break
+        return
     if case.get("name") == "stress":
         r = _stress_worker([tuple(case["args"])])[0]
         if r["errs"] or r["hung"] or r["total"] != r["expect"]:
             chk.violation(f"stress round failed again: {r}", case, broken="C19 free-running stress")
         return
-    job = {"name": case["name"], "init": case["init"], "progs": case["progs"], "tables": case["tables"], "sched": case["sched"]}
+    job = {"name": case["name"], "init": case["init"], "progs": case["progs"], "tables": case["tables"], "sched": case["sched"],
+           "flags": case.get("flags", TT)}
     real = _worker([job])[0]
     rep = common.batch([_line(job, real["trace"], real["locked"])])[0]
     _check(chk, job, real, rep)
